@@ -291,7 +291,10 @@ def run_harness(binary, prop, vecfile, *, seed=1, tier="quick", shards=1, extra_
             rr.spec_errors += err.count("SPEC-ERROR")
             if p.returncode != 0 or not gotsum:
                 idxs = re.findall(r"(?m)^@(\d+)$", err)
-                if isolate and idxs:
+                if isolate and re.search(r"(?m)^@extra$", err):
+                    tail = re.sub(r"(?m)^@\w+\n", "", err)
+                    rr.crashes.append({"index": -1, "shard": shard, "stderr": tail[:3000], "rc": p.returncode, "where": "extra"})
+                elif isolate and idxs:
                     bad = int(idxs[-1])
                     tail = re.sub(r"(?m)^@\d+\n", "", err)
                     rr.crashes.append({"index": bad, "shard": shard, "stderr": tail[:3000], "rc": p.returncode})
